@@ -89,6 +89,7 @@ func runHTTPHistory(h History) HistObs {
 	obs.State0 = string(c.GetState())
 	for i, st := range h.Steps {
 		o := StepObs{Step: st, I: i, OK: true}
+		tStep := time.Now()
 		t0, g0 := s.touchCount(), s.getCount()
 		switch st.Kind {
 		case "init":
@@ -131,6 +132,7 @@ func runHTTPHistory(h History) HistObs {
 		o.Touch = s.touchCount() - t0
 		o.Wire = s.wireSince(t0)
 		o.State = string(c.GetState())
+		o.Ms = time.Since(tStep).Milliseconds()
 		obs.Steps = append(obs.Steps, o)
 	}
 	return obs
@@ -243,6 +245,7 @@ func runStdioHistory(h History, dir string) HistObs {
 	decoderStuck := false // a non-JSON line was served: the client's reader can no longer parse anything
 	for i, st := range h.Steps {
 		o := StepObs{Step: st, I: i, OK: true}
+		tStep := time.Now()
 		l0 := len(recLines(recPath))
 		switch st.Kind {
 		case "init":
@@ -347,6 +350,7 @@ func runStdioHistory(h History, dir string) HistObs {
 			o.Wire = append([]string{"PROCESS-SPAWNED"}, o.Wire...)
 		}
 		o.Touch += sp
+		o.Ms = time.Since(tStep).Milliseconds()
 		obs.Steps = append(obs.Steps, o)
 	}
 	return obs
